@@ -11,7 +11,7 @@ equal iff their shortest reprs denote the same decimal (this also gives `0.0 == 
 iff the decimal is that integer (exact for |x| < 1e16 where `repr` of an integral float is positional).
 `inf`/`nan` have no decimal reading and are compared textually (`nan` is outside the modelled domain).
 
-`Counter(a) == Counter(b)` is modelled as "every element of either list has the same count in both", counts
+`Counter(a) == Counter(b)` is modelled as "every element of either list has the same count in both" (`msEq`), counts
 taken modulo `Mod.__eq__` (Python's dict lookup additionally requires equal hashes: `Mod.__hash__` hashes
 `(val, mult)` and Python guarantees `hash(1) == hash(1.0)`, so this holds for Mods; for `Interval.__hash__`
 see notes/C20.md).
@@ -100,12 +100,14 @@ def modEq (a b : Mod) : Bool :=
   else if a.mult != b.mult then false
   else true
 
-/-- `Counter(l)[m]` -/
-def countMod (m : Mod) (l : List Mod) : Nat := l.countP (modEq m)
+/-- `Counter(a) == Counter(b)` for elements compared with `r` (their `__eq__`): Python ≥ 3.10 evaluates
+`all(self[e] == other[e] for c in (self, other) for e in c)`; `Counter(l)[e]` is the number of elements of `l`
+equal to `e` -/
+def msEq {α : Type} (r : α → α → Bool) (a b : List α) : Bool :=
+  (a ++ b).all fun e => a.countP (r e) == b.countP (r e)
 
-/-- `Counter(l1) == Counter(l2)` (Python ≥ 3.10: all elements of both have equal counts) -/
-def counterEq (l1 l2 : List Mod) : Bool :=
-  (l1 ++ l2).all fun m => countMod m l1 == countMod m l2
+/-- `Counter(l1) == Counter(l2)` on lists of `Mod` -/
+def counterEq (l1 l2 : List Mod) : Bool := msEq modEq l1 l2
 
 /-- `are_mods_equal` -/
 def areModsEqual : Option (List Mod) → Option (List Mod) → Bool
@@ -122,8 +124,6 @@ def ivEq (a b : Interval) : Bool :=
   else if !(areModsEqual a.mods b.mods) then false
   else true
 
-def countIv (i : Interval) (l : List Interval) : Nat := l.countP (ivEq i)
-
 /-- `are_intervals_equal` -/
 def areIntervalsEqual : Option (List Interval) → Option (List Interval) → Bool
   | none, none => true
@@ -131,7 +131,7 @@ def areIntervalsEqual : Option (List Interval) → Option (List Interval) → Bo
   | some _, none => false
   | some a, some b =>
     if a.length != b.length then false
-    else (a ++ b).all fun i => countIv i a == countIv i b
+    else msEq ivEq a b
 
 /-- `get_internal_mods_by_index` -/
 def getInternal (a : Annotation) (k : Int) : Option (List Mod) :=
